@@ -60,7 +60,7 @@ def gen_tables(rng, tier, max_h=40, max_p=80):
              's_p': rng.choice([0.0, rng.uniform(-0.5, 0.5)]), 's_r': rng.choice([0.0, rng.uniform(-0.5, 0.5)]),
              'Acent': rng.choice([0.0, rng.uniform(-0.4, 0.4)]), 'Asat': rng.choice([0.0, rng.uniform(-0.4, 0.4)]),
              'Bcent': rng.choice([0.0, rng.uniform(-0.4, 0.4)]), 'Bsat': rng.choice([0.0, rng.uniform(-0.4, 0.4)]),
-             'ic': rng.choice([1.0, 1.0, rng.uniform(0.2, 1.0)])}
+             'ic': rng.choice([1.0, 1.0, rng.uniform(0.2, 1.0), rng.uniform(0.2, 1.0), 0.0])}     # 0: legal, no galaxies
         if name == 'ELG':
             d.update({'p_max': rng.uniform(0.1, 0.9), 'Q': rng.uniform(20, 200), 'gamma': rng.uniform(1.0, 6.0),
                       'A_s': rng.uniform(0.5, 1.5), 'Ccent': rng.choice([0.0, rng.uniform(-0.3, 0.3)]),
